@@ -238,6 +238,10 @@ func (x *Exec) callFn(fr *Frame, st *State, fn *ssa.Function, args []Value, bind
 			st.assume(Implies(Eq(rets[1].L[0], IntLit(0)), Not(Eq(rets[0].L[0], IntLit(0)))))
 			x.c.note("assumed: %s returns a non-nil value whenever it returns a nil error", full)
 		}
+		if st.calls == nil {
+			st.calls = map[string][]Value{}
+		}
+		st.calls[strings.ReplaceAll(full, modulePrefix, "")+"#ret"] = rets
 		return []Outcome{{St: st, Kind: OutReturn, Rets: rets}}
 	}
 	if isNoEffect(fn) {
